@@ -87,7 +87,7 @@ def writer_event(dom):
 HOSTILE = {
     "p": "a", "lt": "<", "gt": ">", "amp": "&", "quot": '"', "apos": "'", "sp": " ", "cdend": "]]>", "entity": "&amp;", "comment": "<!-- x -->",
     "lbrace": "{", "rbrace": "}", "dollar": "$", "astral": "\U0001F600", "rtl": "של", "numref": "&#10;", "tag": "<b>x</b>", "pi": "<?x y?>",
-    "zwnj": "\u200c", "rlm": "\u200f", "zwsp": "\u200b",
+    "zwnj": "\u200c", "rlm": "\u200f", "zwsp": "\u200b", "pct": "%",
     # function-like text (Gen_Xml.FunctionLike): acted upon in expression cells, plain text in text places
     "fn_pulldata": "pulldata('fruits', 'name', 'k', 'v')", "fn_search": "search('fruits')", "fn_itext": "jr:itext('/data/q_label:label')", "fn_now": "once(now())",
 }
@@ -109,7 +109,7 @@ def tok(text):
 
 CHANNELS = ["label", "hint", "guidance", "cmsg", "rmsg", "choice_label", "choice_extra", "default", "title", "version", "appearance",
             "bind_attr", "instance_attr", "body_attr", "settings_attr", "group_label", "label_ref", "hint_ref", "itext_label", "itext_hint", "choice_itext",
-            "note_label_ref2", "label_instance", "itext_label_ref", "choice_itext_ref", "label_ref_twin"]
+            "note_label_ref2", "label_instance", "itext_label_ref", "choice_itext_ref", "label_ref_twin", "loop_label", "loop_hint"]
 
 
 INSTANCE_OK = {"p", "lt", "gt", "sp", "apos"}
@@ -162,6 +162,12 @@ def build(classes, seed=0, only=None, with_instance=None):
     q.append({"type": "text", "name": "q_it", "label::English (en)": put("itext_label"), "hint::English (en)": put("itext_hint")})
     q.append({"type": "select_one M", "name": "q_selm", "label::English (en)": "QSM"})
     q.append({"type": "note", "name": "q_two", "label": put_full("note_label_ref2", "${q0}%s${q_label}") or "N"})
+    # rows of a (legacy) loop are copied once per choice with %(name)s / %(label)s substituted (and %% for a percent sign): any other
+    # text, "%" included, is the author's.  (A doubled percent sign is the documented escape, so it is not written here.)
+    dbl = "%%" in s or "%(" in s
+    q.append({"type": "begin loop over P", "name": "lp", "label": "LP"})
+    q.append({"type": "text", "name": "ql", "label": ("Kloop_labelxay" if dbl else put("loop_label")), "hint": ("Kloop_hintxay" if dbl else put("loop_hint"))})
+    q.append({"type": "end loop"})
     # a secondary-instance expression inside a label becomes an <output value="..."/>; the expression text is data too
     if with_instance is None:
         with_instance = set(classes) <= INSTANCE_OK
@@ -177,7 +183,7 @@ def build(classes, seed=0, only=None, with_instance=None):
     q = [{k: v for k, v in r.items() if v is not None} for r in q]
     sheets = [{"name": "survey", "header": cols, "rows": [[r.get(c) for c in cols] for r in q]}]
     sheets.append({"name": "choices", "header": ["list_name", "name", "label", "xcol", "label::English (en)"],
-                   "rows": [["L", "l1", put("choice_label"), put("choice_extra"), None], ["L", "l2", "plain", None, None], ["M", "m0", None, None, put_full("choice_itext_ref", "%s ${q0}") or "M0"], ["M", "m1", None, None, put("choice_itext")]]})
+                   "rows": [["L", "l1", put("choice_label"), put("choice_extra"), None], ["L", "l2", "plain", None, None], ["P", "p1", "P one", None, None], ["P", "p2", "P two", None, None], ["M", "m0", None, None, put_full("choice_itext_ref", "%s ${q0}") or "M0"], ["M", "m1", None, None, put("choice_itext")]]})
     st = {"form_title": put("title"), "version": put("version"), "attribute::sattr": put("settings_attr")}
     st = {k: v for k, v in st.items() if v is not None}
     if st:
@@ -295,6 +301,10 @@ def recover(xform, chans):
             r = T(c["attrs"].get("baz")) if c and "baz" in c["attrs"] else None
         elif ch == "group_label":
             r = lab("/data/grp", "label")
+        elif ch == "loop_label":
+            r = lab("/data/lp/p1/ql", "label")
+        elif ch == "loop_hint":
+            r = lab("/data/lp/p2/ql", "hint")
         elif ch == "label_ref":
             r = lab("/data/grp/q_lref", "label")
         elif ch == "hint_ref":
